@@ -112,9 +112,9 @@ func (s *Entry) newChildLogger(args ...any) *Entry {
 	var name string
 	var ok bool
 	if len(args) == 0 {
-		name = stringtool.RandomStringPure(6)
+		name = s.randomChildName()
 	} else if name, ok = args[0].(string); !ok || name == "" {
-		name = stringtool.RandomStringPure(6)
+		name = s.randomChildName()
 	}
 	if l, ok := s.items[name]; ok {
 		return l
@@ -122,6 +122,17 @@ func (s *Entry) newChildLogger(args ...any) *Entry {
 
 	s.items[name] = newentry(s, args...)
 	return s.items[name]
+}
+
+// randomChildName draws random names until one is not in use among the
+// children, so that an anonymous child is always a new logger.
+func (s *Entry) randomChildName() (name string) {
+	for {
+		name = stringtool.RandomStringPure(6)
+		if _, used := s.items[name]; !used {
+			return
+		}
+	}
 }
 
 func (s *Entry) Each(cb func(l *Entry, depth int)) {
